@@ -473,7 +473,9 @@ def scalar_op_line(rng, c, inplace=None, r='t1'):
     if c.is_flt:
         op = rng.choice(['add', 'sub', 'mul', 'div', 'pow'])
         if op == 'div':
-            k = rng.choice(['1', '-1', '2', '4', '-2', '1^1', '1^2'])
+            # (divisors that are not powers of two give quotients the exact model declines; the harness then checks
+            #  the library's result against the correctly rounded quotient itself)
+            k = rng.choice(['1', '-1', '2', '4', '-2', '1^1', '1^2', '3', '10', '49', '-7', '3', '5^3'])
         elif op == 'pow':
             k = rng.choice(['0', '1', '2', '3'])
         else:
@@ -557,5 +559,13 @@ def file_variants(rng, h, p=0.3):
                 ln += ' variant=mocvers'
             elif op in ('read', 'hpxread', 'mocread', 'dor'):
                 ln += ' header=1'
+        if op in ('read', 'dor') and ' pixels=' in ln and ' idtype=' not in ln and rng.random() < 0.5:
+            # the request as a numpy array of a NARROW integer dtype (coverage pixel numbers fit it; anything the
+            # library derives from them — offsets, shifted pixel numbers — must not be computed in that dtype:
+            # seeded change C19g)
+            mx = max(int(x) for x in ln.split(' pixels=')[1].split()[0].split(','))
+            fits = [d for d, top in (('u1', 255), ('i1', 127), ('i2', 32767), ('u2', 65535), ('i4', 2 ** 31 - 1),
+                                     ('u4', 2 ** 32 - 1), ('i8', 2 ** 63 - 1)) if mx <= top]
+            ln += ' idtype=' + rng.choice(fits)
         out.append(ln)
     return out
